@@ -29,7 +29,9 @@ def weight(img: darsia.Image, weight: Union[float, int, darsia.Image]) -> darsia
 
     """
     weighted_img = img.copy()
-    if isinstance(weight, float) or isinstance(weight, int):
+    if isinstance(weight, (float, int, np.floating, np.integer)):
+        # NOTE: Numpy scalars (e.g. the ratio of two single-precision integrals) are
+        # scalar weights as well.
         weighted_img.img *= weight
 
     elif isinstance(weight, darsia.Image):
